@@ -1387,7 +1387,7 @@ func c21RunScenario(t ev.TB, r *ev.Rec, ctl *c21Ctl, stats *c21Stats, scn c21Scn
 		c21Quiesce(n0)
 
 		_ = w.St.Close()
-		cleanup()
+		defer cleanup()
 
 		top := base.Height(len(b.Model) - 1)
 
